@@ -618,6 +618,11 @@ func (e *Engine) sliceOp(fr *Frame, st *State, x *ssa.Slice) {
 }
 
 func (e *Engine) convert(fr *Frame, st *State, x *ssa.Convert) Val {
+	if c, ok := x.X.(*ssa.Const); ok && c.Value != nil {
+		if b, isB := x.Type().Underlying().(*types.Basic); isB && b.Info()&types.IsNumeric != 0 {
+			return e.constTerm(c.Value, x.Type())
+		}
+	}
 	v := e.val(fr, x.X)
 	from, to := x.X.Type(), x.Type()
 	fs, ts := e.sortOf(from), e.sortOf(to)
@@ -706,7 +711,13 @@ func (e *Engine) phi(fr *Frame, st *State, x *ssa.Phi, _ *[]T, _ *[]Val) {
 	var alts []alt
 	for i, p := range b.Preds {
 		c := e.edgeCond(fr, p, b)
+		if c.S == "false" {
+			continue
+		}
 		alts = append(alts, alt{c, e.val(fr, x.Edges[i])})
+	}
+	if len(alts) == 0 {
+		e.unsupported("phi with no executed predecessor")
 	}
 	res = alts[len(alts)-1].v
 	for i := len(alts) - 2; i >= 0; i-- {
